@@ -63,6 +63,7 @@ def _c04(v, b, tier):
     cycle_checks.generic_battery(v, "C04", 60 * SIZES[tier])
     union_checks.union_battery(v, "C04", 50 * SIZES[tier])
     overrides_checks.iter_battery(v, 0)
+    overrides_checks.unsupported_field_battery(v)
 
 
 def _c09(v, b, tier):
@@ -79,6 +80,7 @@ def _c15(v, b, tier):
 
 def _c13(v, b, tier):
     tagged_checks.check_c13(v, 50 * SIZES[tier])
+    twin_checks.strategy_after_warm(v, v.coverage.setdefault("strategy_after_use", {}), only=["configure_tagged_union"], lane="TAG/C13 strategy applied after the converter was used")
 
 
 def _c12(v, b, tier):
@@ -89,10 +91,12 @@ def _c19(v, b, tier):
     thr_checks.check_c19(v, b.t1_summary, 70 * SIZES[tier], 6 * SIZES[tier])
     recwarm_checks.check_recwarm_threads(v, 36 * min(SIZES[tier], 4))
     pep563_checks.pep563_schedule_battery(v)
+    pep563_checks.preemption_battery(v, 150 * min(SIZES[tier], 6))
 
 
 def _c14(v, b, tier):
     sub_checks.check_c14(v, b.t1_summary, 30 * SIZES[tier])
+    twin_checks.strategy_after_warm(v, v.coverage.setdefault("strategy_after_use", {}), only=["include_subclasses"], lane="SUB/C14 strategy applied after the converter was used")
 
 
 def _c17(v, b, tier):
@@ -225,7 +229,10 @@ REGISTRY = {
                     "shared object (what-if), and compared with the model under the matching scope; plus free-running stress rounds (12 threads x 2 "
                     "object graphs on one fresh converter) against a sequential reference; plus the PEP 563 schedule battery: 4 class shapes with string annotations x "
                     "3 x 3 operations of the two threads x thread A stopped after resolving 1 or 2 annotations x both validation modes, thread B running its whole first use "
-                    "in between, compared (results of both threads and of later calls) with a sequential run on a fresh copy of the classes; non-trivial = schedule of >= 3 steps"},
+                    "in between, compared (results of both threads and of later calls) with a sequential run on a fresh copy of the classes; plus the preemption battery: two threads make the same "
+                    "first-use call (unions of attrs classes / dataclasses, a class graph with lists, dicts and unions, both directions) on fresh class objects and a fresh converter, thread A "
+                    "preempted once after its k-th executed line inside cattrs (k over an evenly spaced sample of all lines of the first use), thread B running to completion in between; "
+                    "non-trivial = schedule of >= 3 steps"},
     "C14": {"props_file": "Props/C14.v", "files": ["Model/Base.v", "Model/Disambig.v", "Model/Subclasses.v", "Model/Tagged.v", "Model/SubUnion.v", "Gen/DisSrc.v", "Gen/SubSrc.v", "Proofs/DisambigProofs.v", "Proofs/TaggedProofs.v", "Proofs/SubUnionProofs.v",
                                                    "Proofs/SubclassesProofs.v", "Props/C14.v"],
             "run": _c14, "t1_sections": ["disambig", "subclasses"],
